@@ -73,6 +73,9 @@ type Net struct {
 	World   *World
 	// InstantDial: dials to peers whose behaviour does not fail dials succeed at once (no event).
 	InstantDial bool
+	// Instant: nothing is parked at all; every dial, request and message is answered at once as the
+	// world prescribes (for harnesses that enumerate inputs rather than arrival orders).
+	Instant bool
 }
 
 func NewNet(w *World) *Net { return &Net{World: w, InstantDial: true} }
@@ -83,6 +86,34 @@ func (n *Net) logf(e LogEntry) {
 }
 
 func (n *Net) park(ctx context.Context, kind string, to peer.ID, msg *pb.Message, proto string) (*pb.Message, error) {
+	if n.Instant {
+		n.mu.Lock()
+		n.seq++
+		seq := n.seq
+		e := LogEntry{What: kind, Kind: kind, To: to, Seq: seq, Msg: msg, Proto: proto}
+		if msg != nil {
+			e.Type, e.Key = msg.GetType(), string(msg.GetKey())
+		}
+		n.logf(e)
+		var r result
+		if kind == "dial" {
+			if pe := n.World.Peers[to]; pe == nil || pe.Behaviour == BDialFail {
+				r.err = ErrSimDial
+			}
+		} else {
+			r.msg, r.err = n.World.Answer(to, msg, proto)
+			if kind == "msg" {
+				r.msg = nil
+			}
+		}
+		d := LogEntry{What: "deliver", Kind: kind, To: to, Seq: seq, Resp: r.msg, Msg: msg, Proto: proto, Type: e.Type, Key: e.Key}
+		if r.err != nil {
+			d.Err = r.err.Error()
+		}
+		n.logf(d)
+		n.mu.Unlock()
+		return r.msg, r.err
+	}
 	n.mu.Lock()
 	n.seq++
 	p := &Pending{Seq: n.seq, Kind: kind, To: to, Msg: msg, Proto: proto, ctx: ctx, reply: make(chan result, 1)}
@@ -124,6 +155,10 @@ func (n *Net) remove(p *Pending) {
 // Dial is the host's DialFn.
 func (n *Net) Dial(ctx context.Context, p peer.ID) error {
 	pe := n.World.Peers[p]
+	if n.Instant {
+		_, err := n.park(ctx, "dial", p, nil, "")
+		return err
+	}
 	if n.InstantDial && pe != nil && pe.Behaviour != BDialFail && pe.Behaviour != BSlowDial {
 		// a successful dial is not an observable fact of the lookup: no event
 		n.mu.Lock()
